@@ -92,7 +92,7 @@ func cmdRun(args []string) int {
 	cfg := &interp.Config{
 		Prog: l.prog, HarnessPkgs: harnessPkgs(l), InitPkgs: l.initPkgs, Workers: *workers,
 		SolverArgv: solverArgv(*solver), TimeoutMs: *timeout, MaxPaths: *maxPaths, Budget: *budget,
-		Params: params, Trace: *trace, SampleEvery: 50, SolverLog: *slog, StopOnFirst: *first, RunCmdInits: *cmdInits,
+		Params: params, Trace: *trace, SampleEvery: 50, SolverLog: *slog, StopOnFirst: *first, RunCmdInits: *cmdInits, FreshInits: *cmdInits,
 	}
 	res, err := interp.Explore(cfg, fn)
 	if err != nil {
